@@ -14,7 +14,7 @@ from ..cfg import cfg_of
 from ..fold import ExtVal, Inst
 from ..spec import tables as T
 from ..terms import Terms, show, match, alts, C, K, L
-from .common import resolve_all, JWE_PRODUCE, const_value, entries, impls, is_const, scope_of, sites_calling
+from .common import can_reach_exit, succ_by_label, resolve_all, JWE_PRODUCE, const_value, entries, impls, is_const, scope_of, sites_calling
 from .c02 import r02_2_3
 from .c04 import r04_3
 from .c17 import r17_3
@@ -272,6 +272,24 @@ def r08_5(ctx) -> None:
     okk = okk and len(ders) == 1 and norm(ders[0].args[0]) == "key"
     ctx.check(okk, "R08.5", cd, cd.node, f"{cd.short} :: KDF", "PBKDF2 is not run with the algorithm's hash, key_size / 8 octets and the p2c count on the password", "PBKDF2HMAC(hash_alg, key_size // 8, salt, p2c).derive(key)",
               construct="PBES2 KDF parameters")
+    # iteration count: exactly the counts below 1 (and above what the backend supports) are refused - p2c = 1 is a valid count
+    cfgd = cfg_of(cd)
+    p2cp = cd.pos_params[3] if len(cd.pos_params) > 3 else "p2c"
+    lows = []
+    for t_ in cfgd.nodes:
+        if t_.kind != "test" or not isinstance(t_.ast, ast.Compare) or len(t_.ast.ops) != 1:
+            continue
+        l_, r_, op_ = t_.ast.left, t_.ast.comparators[0], t_.ast.ops[0]
+        form = None
+        if norm(l_) == p2cp and isinstance(r_, ast.Constant) and isinstance(r_.value, int):
+            form = (type(op_).__name__, r_.value)
+        elif norm(r_) == p2cp and isinstance(l_, ast.Constant) and isinstance(l_.value, int):
+            form = ({"Gt": "Lt", "GtE": "LtE", "Lt": "Gt", "LtE": "GtE"}.get(type(op_).__name__, "?"), l_.value)
+        if form and form[0] in ("Lt", "LtE"):
+            lows.append((t_, form))
+    okl = bool(lows) and all(f in (("Lt", 1), ("LtE", 0)) and not can_reach_exit(cfgd, succ_by_label(cfgd, t_, "true")) for t_, f in lows)
+    ctx.check(okl, "R08.5", cd, cd.node, f"{cd.short} :: p2c lower bound", f"the PBES2 iteration count is not refused exactly below 1: {[f for _, f in lows]}", "raise iff p2c < 1 (or above the backend maximum)",
+              construct="p2c lower bound")
     HP2S = "urlsafe_b64decode(to_bytes(recipient.headers()['p2s']))"
     HP2C = "recipient.headers()['p2c']"
     PW = "recipient.recipient_key.get_op_key('deriveKey')"
